@@ -2447,6 +2447,9 @@ void DGXMLScanner::scanReset(const InputSource& src)
     // Reset some status flags
     fInException = false;
     fStandalone = false;
+
+    // Every document starts out as XML 1.0 until its XMLDecl says otherwise
+    fXMLVersion = XMLReader::XMLV1_0;
     fErrorCount = 0;
     fHasNoDTD = true;
 
